@@ -1175,3 +1175,51 @@ def ts8(P, C, floor=2):
     if n == 0:
         raise core.AnalysisBroken("TS-8: no function changes naux")
     return n
+
+
+def ts9(P, C, floor=2):
+    """TS-9: an empty key store has no array."""
+    C.rule("TS-9", "the readers take `ndim == 0 && naux == 0` for 'this table owns nothing' and then assign aux without releasing it, so a key "
+           "operation that can run on a table without a spline (write_key, remove_key) never installs an array of zero entries: the count "
+           "of every array it installs into aux is at least 1 for every reachable naux (naux + k with k >= 1, or naux - 1 only under "
+           "naux > 1 with null installed otherwise)", floor=floor)
+    n = 0
+    for f in sorted(mutators(P), key=lambda g: (g.file, g.line)):
+        if f.name not in ("write_key", "remove_key"):
+            continue
+        # the allocate<char_ptr_ptr>(count) calls: the arrays of entries
+        sites = [i for i, cal in f.calls() if cal and cal["name"] == "allocate" and (cal.get("targs") or [""])[0] == "char **"]
+        for i in sites:
+            cnt = norm_count(f, f.args(i)[0])
+            d = cnt - Poly.atom("naux")
+            ok = False
+            why = "count %r" % cnt
+            if d.is_const() and d.const_value() >= 1:
+                ok = True
+                why = "count %r is at least 1" % cnt
+            elif d.is_const() and d.const_value() <= 0:
+                need = 1 - d.const_value()        # naux >= need  <=>  naux > need-1
+                # an enclosing if / conditional whose condition is naux > need-1 (in any orientation), with the call in the true arm
+                prev = i
+                for a in f.ancestors(i):
+                    k = f.k(a)
+                    if k in ("IfStmt", "ConditionalOperator"):
+                        cond = f.nodes[a]["cond"] if k == "IfStmt" else f.nodes[a]["ch"][0]
+                        arm = f.nodes[a].get("then") if k == "IfStmt" else f.nodes[a]["ch"][1]
+                        in_true = arm == prev or prev in set(f.walk(arm))
+                        orr = f.oriented(cond, lambda x: bool(root_member(f, x)) and root_member(f, x)[0] == "naux")
+                        if orr and in_true:
+                            cv = f.nodes[orr[2]].get("cv")
+                            if (orr[1] == ">" and cv is not None and cv >= need - 1) or (orr[1] == ">=" and cv is not None and cv >= need) or \
+                                    (orr[1] == "!=" and cv == 0 and need == 1):
+                                ok = True
+                                why = "count %r, allocated only when %s" % (cnt, f.render(cond))
+                    prev = a
+                if not ok:
+                    why = "count %r is 0 when naux is %d: removing the last key installs an array of zero entries, which a later read into the (spline-less) " \
+                          "table overwrites without releasing" % (cnt, need - 1)
+            n += 1
+            C.ob("TS-9", fshort(f), "installed-array-not-empty@%d" % f.nodes[i]["loc"][0], ok, f.loc(i), why)
+    if n == 0:
+        raise core.AnalysisBroken("TS-9: no key-array allocation found in write_key / remove_key")
+    return n
